@@ -93,9 +93,26 @@ func genCBC(t *rapid.T) cbcCase {
 	}
 }
 
+// otherUsers calls the secret-based entry points of the same package (crypt.go) the way another part of a program
+// would: they share package-level tables with the AES helpers, which must not be affected.
+func otherUsers(n int) {
+	for _, p := range []string{"", "x", "0123456789abcdef", "0123456789abcdef0"}[:1+n%4] {
+		if e, err := cryptz.Encrypt(p, "other user"); err == nil {
+			cryptz.Decrypt(e, "other user")
+		}
+		if e, err := cryptz.GCMEncrypt(p, "other user", ""); err == nil {
+			cryptz.GCMDecrypt(e, "other user", "")
+		}
+	}
+}
+
 func runCBC(c cbcCase, r *pb.Rec) error {
 	if len(c.IV) != 16 || (len(c.Key) != 16 && len(c.Key) != 24 && len(c.Key) != 32) {
 		return nil
+	}
+	if len(c.Plain)%8 == 3 {
+		otherUsers(len(c.Plain))
+		r.Class("secret-based entry points of the package used before")
 	}
 	blk, _ := aes.NewCipher(c.Key)
 	padded := refPad(c.Plain, 16)
@@ -612,17 +629,17 @@ func FuzzUnpad(f *testing.F) {
 }
 
 func init() {
-	pb.Register("cbc", pb.Options{Base: 8000, Required: []string{"full-block padding", "empty plaintext", "in place", "24/32-byte key", "key used again after 300 other keys"},
+	pb.Register("cbc", pb.Options{Twins: 3, Base: 8000, Required: []string{"full-block padding", "empty plaintext", "in place", "24/32-byte key", "key used again after 300 other keys", "secret-based entry points of the package used before"},
 		Rule: "keys 16/24/32, 16-byte IV, plaintext 0..80 biased to block boundaries, fresh (dirty) or documented in-place dst; oracle crypto/cipher CBC over reference PKCS#7, length helpers, decrypt == plaintext; non-trivial = block-aligned plaintext or in-place layout"},
 		genCBC, runCBC)
-	pb.Register("key_sizes", pb.Options{Base: 800, Rule: "every key length 0..40 for the four AES entry points; oracle error <=> length not in {16,24,32}; non-trivial = invalid length"}, genKey, runKey)
-	pb.Register("gcm", pb.Options{Base: 8000, Required: []string{"tag bit flipped", "nonce corrupted", "aad corrupted", "in place", "non-standard nonce size", "nonce longer than one AES block", "plaintext longer than 256 bytes", "same key, two nonce sizes", "empty nonce rejected"},
+	pb.Register("key_sizes", pb.Options{Twins: 3, Base: 800, Rule: "every key length 0..40 for the four AES entry points; oracle error <=> length not in {16,24,32}; non-trivial = invalid length"}, genKey, runKey)
+	pb.Register("gcm", pb.Options{Twins: 3, Base: 8000, Required: []string{"tag bit flipped", "nonce corrupted", "aad corrupted", "in place", "non-standard nonce size", "nonce longer than one AES block", "plaintext longer than 256 bytes", "same key, two nonce sizes", "empty nonce rejected"},
 		Rule: "keys 16/24/32, nonce 1..40 bytes and 64/100/255/256/1000, AAD 0..40 and up to 5000, plaintext 0..80 and (1 in 16) up to 65537, in-place layouts; single-bit flips over ciphertext||tag, nonce, AAD, truncation, extension; oracle crypto/cipher GCM Seal/Open; non-trivial = corruption or in-place case"},
 		genGCM, runGCM)
-	pb.Register("pkcs7", pb.Options{Base: 12000, Required: []string{"full-block padding", "near-valid padding", "un-padding rejected", "un-padding accepted"},
+	pb.Register("pkcs7", pb.Options{Twins: 3, Base: 12000, Required: []string{"full-block padding", "near-valid padding", "un-padding rejected", "un-padding accepted"},
 		Rule: "round trip for data 1..64 and block 1..255 (with spare capacity in the input); un-padding of arbitrary byte strings and of near-valid paddings (one pad byte wrong, pad 0, pad > block, length not a multiple); oracle reference strict un-padding (error <=> rejected, equal prefix); non-trivial = rejected multiple-of-block input or full-block/large-block round trip"},
 		genPad, runPad)
-	pb.Register("cbc_unpad", pb.Options{Base: 8000, Required: []string{"ciphertext length illegal", "bad padding rejected", "padding accepted"},
+	pb.Register("cbc_unpad", pb.Options{Twins: 3, Base: 8000, Required: []string{"ciphertext length illegal", "bad padding rejected", "padding accepted"},
 		Rule: "arbitrary 1-4 block strings with valid / one-byte-wrong / out-of-range padding tails, reference-encrypted with raw CBC, optionally truncated/extended, then AESCBCDecrypt (fresh or in-place dst); oracle error <=> reference strict un-padding rejects, equal length and content; non-trivial = rejected"},
 		genCBCBad, runCBCBad)
 }
